@@ -183,6 +183,11 @@ func cmdC02(args []string) error {
 	if err := rowsThroughLoadOnce(R, rows, concs[0]); err != nil {
 		return err
 	}
+	// (S) the rows of the shadow-capture use (entry without timestamp, default timestamp = time of detection) through
+	// the real mainToShadow of a shadow-mode Syncer
+	if err := rowsThroughMainToShadow(R, rows, concs[0]); err != nil {
+		return err
+	}
 
 	// (R) all pairs and triples, in all orders, through strategy.Update on a real LMDB
 	beats := map[[2]Ver]bool{}
@@ -515,6 +520,82 @@ func rowsThroughLoadOnce(R *Result, rows []mergeRow, c Conc) error {
 		}
 		if err != nil || res != row.Res || (tag != want && !(row.Tag == "dropped" && tag == "dropped")) {
 			R.Bad(row, sig, "through LoadOnce: stored %v/%s (%v), specification %v/%s (old=%v in=%+v fmt=%d)", res, tag, err, row.Res, row.Tag, row.Old, row.In, row.Ctx.Fmt)
+		}
+	}
+	return nil
+}
+
+func rowsThroughMainToShadow(R *Result, rows []mergeRow, c Conc) error {
+	w, err := NewWorld(false, nil, c, KeyConcs()[0], R)
+	if err != nil {
+		return err
+	}
+	defer w.Close()
+	if err := w.AddInst(1, false); err != nil {
+		return err
+	}
+	in := w.Insts[1]
+	key := []byte("k")
+	shadowName := syncer.SyncDBIShadowPrefix + w.DBIName
+	for _, row := range rows {
+		if row.In.TS != 0 || row.Ctx.DefTS == 0 || row.Ctx.Fmt != 3 || row.Ctx.Cutoff != 0 || row.In.Del || row.In.XF {
+			continue
+		}
+		var oldval, out []byte
+		var txnID uint64
+		err := in.Env.Update(func(txn *lmdb.Txn) error {
+			txnID = uint64(txn.ID())
+			main, err := txn.OpenDBI(w.DBIName, lmdb.Create)
+			if err != nil {
+				return err
+			}
+			shadow, err := txn.OpenDBI(shadowName, lmdb.Create)
+			if err != nil {
+				return err
+			}
+			if err := txn.Put(main, key, c.Val[row.In.Val], 0); err != nil {
+				return err
+			}
+			oldval = c.StoredBytes(row.Old, txnID-1)
+			if oldval == nil {
+				if e := txn.Del(shadow, key, nil); e != nil && !lmdb.IsNotFound(e) {
+					return e
+				}
+			} else if err := txn.Put(shadow, key, oldval, 0); err != nil {
+				return err
+			}
+			if err := in.S.VerifMainToShadow(context.Background(), txn, header.Timestamp(c.TS[row.Ctx.DefTS])); err != nil {
+				return fmt.Errorf("mainToShadow: %w", err)
+			}
+			v, err := txn.Get(shadow, key)
+			if err == nil {
+				out = append([]byte(nil), v...)
+			}
+			return nil
+		})
+		R.Evaluations++
+		R.Counters["merge_rows_through_mainToShadow"]++
+		sig := map[string]interface{}{"class": "merge-row-maintoshadow", "old_del": row.Old.Del, "empty_value": len(c.Val[row.In.Val]) == 0}
+		if err != nil {
+			R.Bad(row, sig, "capture failed: %v", err)
+			continue
+		}
+		res, aerr := c.AbsStored(out)
+		tag := "rewritten"
+		switch {
+		case out == nil:
+			tag = "dropped"
+		case bytes.Equal(out, oldval):
+			tag = "untouched"
+		default:
+			if e := WellFormedLSWrite(out, txnID, false); e != nil {
+				R.Bad(row, sig, "mainToShadow wrote a malformed value: %v", e)
+				continue
+			}
+		}
+		if aerr != nil || res != row.Res || tag != row.Tag {
+			R.Bad(row, sig, "through mainToShadow: shadow entry %v/%s (%v), specification %v/%s (old=%v application value class %d, detection time class %d)",
+				res, tag, aerr, row.Res, row.Tag, row.Old, row.In.Val, row.Ctx.DefTS)
 		}
 	}
 	return nil
